@@ -76,7 +76,9 @@ func NameItem(msg string) int {
 }
 
 // StepBudget is the liveness bound in scheduler steps for a configuration:
-// ten times a generous estimate of the fault-free step count.
+// forty times a generous estimate of the fault-free step count. A hang is
+// decided by quiescence; this bound only guards against livelock, so it is
+// deliberately far above what any reasonable implementation needs.
 func StepBudget(c *RunConfig) int {
 	pre := 0
 	for _, p := range c.Prelude {
@@ -86,7 +88,7 @@ func StepBudget(c *RunConfig) int {
 		}
 	}
 	if c.Workflow == WSingle {
-		return 10 * (5000 + 4*c.NumByte + pre)
+		return 40 * (5000 + 4*c.NumByte + pre)
 	}
 	wi := Info(c.Workflow)
 	perSample := 15 + 15 + 12
@@ -108,7 +110,7 @@ func StepBudget(c *RunConfig) int {
 		// scheduling point per Read from the instrumenter
 		est += reads
 	}
-	return 10 * (est + pre)
+	return 40 * (est + pre)
 }
 
 // ExecutePlain runs one configuration with real goroutines and no controller:
@@ -161,6 +163,27 @@ func Execute(t *testing.T, cfg *RunConfig) *Outcome {
 	setCurrent(rs)
 	defer setCurrent(nil)
 	out := &Outcome{Cfg: cfg, NamedItem: -1, Stream: st, CallsAtReturn: -1}
+	var car *carrier
+	if cfg.Carrier != "" {
+		var cerr error
+		car, cerr = buildCarrier(cfg, st, src)
+		if cerr != nil {
+			t.Fatalf("carrier %s: %v", cfg.Carrier, cerr)
+		}
+		if car != nil {
+			defer car.cleanup()
+		}
+	}
+	var handed io.Reader = src
+	if car != nil {
+		handed = car.src
+	}
+	var shared *switchSource
+	for _, pre := range cfg.Prelude {
+		if pre.SameSource && car == nil {
+			shared = &switchSource{}
+		}
+	}
 	body := func() {
 		for _, pre := range cfg.Prelude {
 			pc := RunConfig{Workflow: pre.Workflow, NumByte: pre.NumByte, Stream: pre.Stream, Chunk: ChunkSpec{Kind: "full"}, Fault: pre.Fault}
@@ -169,10 +192,19 @@ func Execute(t *testing.T, cfg *RunConfig) *Outcome {
 			}
 			pst := BuildStream(pre.Stream, pc.Required())
 			rs.setPrelude(true)
-			callWorkflow(pre.Workflow, NewSimSource(pst, &pc, true), pre.NumByte)
+			var psrc io.Reader = NewSimSource(pst, &pc, true)
+			if pre.SameSource && shared != nil {
+				shared.set(psrc)
+				psrc = shared
+			}
+			callWorkflow(pre.Workflow, psrc, pre.NumByte)
 			rs.setPrelude(false)
 		}
-		v, err := callWorkflow(cfg.Workflow, src, cfg.NumByte)
+		if shared != nil {
+			shared.set(handed)
+			handed = shared
+		}
+		v, err := callWorkflow(cfg.Workflow, handed, cfg.NumByte)
 		out.Verdict = v
 		out.ErrNil = err == nil
 		if err != nil {
@@ -203,5 +235,8 @@ func Execute(t *testing.T, cfg *RunConfig) *Outcome {
 	src.mu.Lock()
 	out.Src = SrcStats{src.Reads, src.Delivered, src.Requested, src.FaultFired, src.ErrReturns, src.EOFReturns, src.MaxInRead, src.ShortReads, src.EOFWithData, src.FirstErrAt, src.Log}
 	src.mu.Unlock()
+	if car != nil {
+		out.Src.Delivered = car.consumed()
+	}
 	return out
 }
